@@ -18,6 +18,10 @@ claimed = {
          "§5 C05"),
  "C15": ("SX", "Exhaustive exploration (deviation bound 2 quick / 3 thorough, happens-before state cache) of the async runner, 1-3 concurrent readers each doing a sequence of Done/IsDone/Get/Result/Error, and an optional Cancel at instants before, inside, at the end of and between attempts, for all four async entry points and stacks none/retry/hedge/timeout/fallback; Done-after-listeners, IsDone monotonicity, equal values for all readers, agreement with the synchronous run of the same program and the Cancel outcome are checked on every schedule.",
          "§5 C15"),
+ "C18": ("PX", "Exhaustive enumeration (quick: pairwise, 400+ programs; thorough: full product, 25k programs) of request body kind/size x request context kind x executor context kind x policy stack x server script x entry point, each run on the real HTTP adapter under the virtual runtime against a recording fake transport, plus gRPC client/server/tap interceptor programs over all 17 status codes and 6 context kinds; every attempt's method, URL, headers, complete body, context values/metadata/deadline, the retry count, Retry-After spacing, the returned response and its readable body are checked.",
+         "§5 C18"),
+ "C19": ("SX", "Leak oracle at quiescence on every schedule (deviation bound 1 quick / 2 thorough) of 58 core scenarios (each policy x success/failure/rejection/timeout/cancellation, hedge losers returning late, cancellations tied with delay ends, repetitions) and 200+ HTTP/gRPC scenarios with caller contexts that never end: library threads still parked or library timers still pending once all user code has returned are leaks; responses not returned must be closed.",
+         "§5 C19"),
 }
 na = {}
 props = [json.loads(l) for l in open('/verif/properties.jsonl')]
